@@ -644,6 +644,20 @@ func ruleC10ValidBeforeSet(c *Ctx) {
 					if _, isConst := s.val.(*ssa.Const); isConst {
 						mayZero = true
 					}
+					// built by a package helper that returns the zero Value on some path
+					if hc, isCall := s.val.(*ssa.Call); isCall {
+						if h := hc.Call.StaticCallee(); h != nil && c.P.InPkg(h) && h.Signature.Results().Len() == 1 {
+							core.EachInstr(h, func(j ssa.Instruction) {
+								if ret, isRet := j.(*ssa.Return); isRet && len(ret.Results) == 1 {
+									for _, rs := range traceSourcesPhi(ret.Results[0]) {
+										if _, isConst := rs.val.(*ssa.Const); isConst {
+											mayZero = true
+										}
+									}
+								}
+							})
+						}
+					}
 				}
 				if !mayZero {
 					return
